@@ -10,6 +10,7 @@ import ErgoProofs.Lemmas.PropsAux
 import ErgoProofs.Lemmas.ChunkedRead
 import ErgoProofs.Lemmas.ProgramThm
 import ErgoProofs.Lemmas.CodecInst
+import ErgoProofs.Lemmas.ProcBytesThm
 namespace Ergo
 open Proc
 
@@ -93,5 +94,18 @@ theorem C13_torn_tail_is_dropped_json (ets : Event → String) {limit : Nat} (f 
     ∃ n, n ≤ evs.length ∧
       Storage.readEvents Codec.classifyLine limit (Storage.appendTorn Codec.classifyLine (Codec.encodeEvent ets) f evs k) = .ok (es ++ evs.take n) :=
   Storage.appendTorn_reads (Codec.jsonCodec ets) f es evs k hr hs
+
+
+/-- a lock-free reader of *bytes*: in every run of the byte-level system (deaths between calls included) what a reader decoded is the log as it
+    was after some number of committed sections -/
+theorem C13_byte_reader_sees_a_past_state (f : Storage.Bytes) (ws : List (List Event → Except CmdErr Write)) (nr limit : Nat) (ets : Event → String)
+    (es : List Event) (hf : Storage.readEvents Codec.classifyLine limit f = .ok es) (hfw : Codec.AllWf es)
+    (hw : ∀ d ∈ ws, ∀ snap wr, Codec.AllWf snap → d snap = .ok wr → Codec.AllWf wr.events)
+    (s : ProcB.BSys) (h : ProcB.BReachableNT (ProcB.BSys.init f ws nr limit ets) s) (r : Nat) (seen : List Event)
+    (hr : s.readers[r]? = some (.done seen)) :
+    ∃ k, k ≤ s.commits.length ∧ seen = Proc.logAfter es s.commits k := by
+  obtain ⟨hreach, _⟩ := ProcB.reach_sim h (ProcB.inv_init f ws nr limit ets es hf hfw hw)
+  rw [ProcB.abs_init, ProcB.decode_of_ok hf] at hreach
+  exact C13_reader_sees_a_past_state hreach r seen hr
 
 end Ergo
